@@ -185,52 +185,56 @@ structure SInv (c : Cfg β) (s : St β) : Prop where
   workers : s.idle + s.held.length + s.exited = c.w
   closed_done : s.jobsClosed = true → s.prodDone = true
   closer_waits : c.shape.closerWaitsAllWorkers = true → s.entriesClosed = true → s.exited = c.w
+  done_closed : s.prodDone = true → s.jobsClosed = c.shape.producerClosesJobs
 
 theorem sinv_init (c : Cfg β) : SInv c (init c) := by
   constructor <;> simp [init]
 
 theorem sinv_step {c : Cfg β} {a : Actor} {s s' : St β} (h : SInv c s) (hs : Step c a s s') :
     SInv c s' := by
-  obtain ⟨h1, h2, h3, h4, h5⟩ := h
+  obtain ⟨h1, h2, h3, h4, h5, h6⟩ := h
   cases hs with
-  | cancel => exact ⟨h1, h2, h3, h4, h5⟩
+  | cancel => exact ⟨h1, h2, h3, h4, h5, h6⟩
   | prodSend _ g1 g2 g3 =>
-    refine ⟨by simp; omega, by simp; omega, h3, ?_, h5⟩
-    intro hj; have := h4 hj; simp_all
-  | prodExit _ g1 g2 => exact ⟨h1, h2, h3, fun _ => rfl, h5⟩
-  | prodCancel _ g1 g2 _ _ => exact ⟨h1, h2, h3, fun _ => rfl, h5⟩
+    refine ⟨by simp; omega, by simp; omega, h3, ?_, h5, ?_⟩
+    · intro hj; have := h4 hj; simp_all
+    · intro hj; simp [g1] at hj
+  | prodExit _ g1 g2 => exact ⟨h1, h2, h3, fun _ => rfl, h5, fun _ => rfl⟩
+  | prodCancel _ g1 g2 _ _ => exact ⟨h1, h2, h3, fun _ => rfl, h5, fun _ => rfl⟩
   | workRecv _ r rest p g1 g2 _ =>
-    refine ⟨h1, ?_, ?_, h4, h5⟩
+    refine ⟨h1, ?_, ?_, h4, h5, h6⟩
     · simp [g2] at h2 ⊢; omega
     · simp; omega
   | workExitClosed _ g1 g2 g3 =>
-    refine ⟨h1, h2, by simp; omega, h4, ?_⟩
+    refine ⟨h1, h2, by simp; omega, h4, ?_, h6⟩
     intro hw hc
     have := h5 hw hc
     simp; omega
   | workCancelRecv _ g1 _ _ =>
-    refine ⟨h1, h2, by simp; omega, h4, ?_⟩
+    refine ⟨h1, h2, by simp; omega, h4, ?_, h6⟩
     intro hw hc
     have := h5 hw hc
     simp; omega
   | workSend _ pre x post g1 g2 g3 =>
-    refine ⟨h1, ?_, ?_, h4, ?_⟩
+    refine ⟨h1, ?_, ?_, h4, ?_, ?_⟩
     · simp [g1] at h2 ⊢; omega
     · simp [g1] at h3 ⊢; omega
     · intro _ hc; simp [g2] at hc
+    · exact h6
   | workCancelSend _ pre x post g1 _ _ =>
-    refine ⟨h1, ?_, ?_, h4, ?_⟩
+    refine ⟨h1, ?_, ?_, h4, ?_, ?_⟩
     · simp [g1] at h2 ⊢; omega
     · simp [g1] at h3 ⊢; omega
     · intro hw hc
       have := h5 hw hc
       simp [g1] at h3; omega
-  | closer _ g1 g2 => exact ⟨h1, h2, h3, h4, fun hw _ => g2 hw⟩
+    · exact h6
+  | closer _ g1 g2 => exact ⟨h1, h2, h3, h4, fun hw _ => g2 hw, h6⟩
   | collRecv _ x rest g0 g1 =>
-    refine ⟨h1, ?_, h3, h4, h5⟩
+    refine ⟨h1, ?_, h3, h4, h5, h6⟩
     simp [g1] at h2 ⊢; omega
-  | collClosed _ g0 g1 g2 => exact ⟨h1, h2, h3, h4, h5⟩
-  | collCancel _ g0 _ _ => exact ⟨h1, h2, h3, h4, h5⟩
+  | collClosed _ g0 g1 g2 => exact ⟨h1, h2, h3, h4, h5, h6⟩
+  | collCancel _ g0 _ _ => exact ⟨h1, h2, h3, h4, h5, h6⟩
 
 theorem sinv_of_reach {c : Cfg β} {s : St β} (h : Reach c s) : SInv c s :=
   Reach.invariant (SInv c) (sinv_init c) (fun _ _ _ _ hp hs => sinv_step hp hs) s h
@@ -246,4 +250,686 @@ theorem result_stable {c : Cfg β} {a : Actor} {s s' : St β} (hs : Step c a s s
     s'.result = some r ∧ s'.out = s.out := by
   cases hs <;> simp_all
 
+/-! ## Accounting invariant (while `ctx` is not cancelled) -/
+
+/-- rows whose product is not dropped -/
+def nz (c : Cfg β) (r : Nat) : Bool := !c.isZ (c.prod r)
+
+/-- While nothing has been cancelled: every row `< next` with a non-zero product is in exactly one
+    of `jobs`, a worker's hand, `entries`, or the collector's slice; every entry carries the
+    sequential product of its row. -/
+structure DInv (c : Cfg β) (s : St β) : Prop where
+  prod_done : s.prodDone = true → s.next = c.dim
+  exited_closed : 0 < s.exited → s.jobsClosed = true ∧ s.jobs = []
+  tagged : ∀ x ∈ s.held ++ s.entriesQ ++ s.got, x.2 = c.prod x.1
+  got_nz : ∀ x ∈ s.got, c.isZ x.2 = false
+  account : ∀ r, nz c r = true →
+    s.jobs.count r + (s.held.map Prod.fst).count r + (s.entriesQ.map Prod.fst).count r +
+      (s.got.map Prod.fst).count r = if r < s.next then 1 else 0
+
+theorem dinv_init (c : Cfg β) : DInv c (init c) := by
+  constructor <;> simp [init]
+
+theorem dinv_step {c : Cfg β} (hrow : c.shape.rowByOneVecDot = true)
+    (hdz : c.shape.dropsZero = true) {a : Actor} {s s' : St β} (hS : SInv c s)
+    (hD : s.cancelled = false → DInv c s) (hs : Step c a s s') (hc' : s'.cancelled = false) :
+    DInv c s' := by
+  have hc := cancelled_mono hs hc'
+  obtain ⟨d1, d2, d3, d4, d5⟩ := hD hc
+  cases hs with
+  | cancel => simp at hc'
+  | prodSend _ g1 g2 g3 =>
+    refine ⟨?_, ?_, d3, d4, ?_⟩
+    · intro h; simp [g1] at h
+    · intro h
+      have := hS.closed_done (d2 h).1
+      simp [g1] at this
+    · intro r hr
+      have := d5 r hr
+      simp only [List.count_append, List.count_cons, List.count_nil] at this ⊢
+      by_cases e : s.next = r
+      · subst e; simp at this ⊢; omega
+      · have e' : ¬ r = s.next := fun h => e h.symm
+        simp [e] at this ⊢
+        split at this <;> split <;> omega
+  | prodExit _ g1 g2 =>
+    refine ⟨fun _ => g2, ?_, d3, d4, d5⟩
+    intro h
+    have := hS.closed_done (d2 h).1
+    simp [g1] at this
+  | prodCancel _ g1 g2 _ gc => simp [hc] at gc
+  | workRecv _ r0 rest p g1 g2 gp =>
+    refine ⟨d1, ?_, ?_, d4, ?_⟩
+    · intro h
+      have := (d2 h).2
+      simp [g2] at this
+    · intro x hx
+      simp only [List.mem_append, List.mem_cons] at hx d3
+      rcases hx with ((rfl | hx) | hx) | hx
+      · exact gp hrow
+      · exact d3 x (Or.inl (Or.inl hx))
+      · exact d3 x (Or.inl (Or.inr hx))
+      · exact d3 x (Or.inr hx)
+    · intro r hr
+      have := d5 r hr
+      simp only [g2, List.count_cons, List.map_cons] at this ⊢
+      omega
+  | workExitClosed _ g1 g2 g3 => exact ⟨d1, fun _ => ⟨g3, g2⟩, d3, d4, d5⟩
+  | workCancelRecv _ g1 _ gc => simp [hc] at gc
+  | workSend _ pre x post g1 g2 g3 =>
+    refine ⟨d1, d2, ?_, d4, ?_⟩
+    · intro y hy
+      apply d3 y
+      simp only [g1, List.mem_append, List.mem_cons, List.mem_nil_iff, or_false] at hy ⊢
+      tauto
+    · intro r hr
+      have := d5 r hr
+      simp only [g1, List.count_append, List.count_cons, List.count_nil, List.map_append,
+        List.map_cons, List.map_nil] at this ⊢
+      omega
+  | workCancelSend _ pre x post g1 _ gc => simp [hc] at gc
+  | closer _ g1 g2 => exact ⟨d1, d2, d3, d4, d5⟩
+  | collRecv _ x rest g0 g1 =>
+    have hx : x.2 = c.prod x.1 := d3 x (by simp [g1])
+    by_cases hz : c.isZ x.2 = true
+    · -- dropped
+      have hcol : collect c s.got x = s.got := by simp [collect, hdz, hz]
+      refine ⟨d1, d2, ?_, ?_, ?_⟩
+      · intro y hy
+        apply d3 y
+        simp only [hcol, g1, List.mem_append, List.mem_cons] at hy ⊢
+        tauto
+      · simpa [hcol] using d4
+      · intro r hr
+        have := d5 r hr
+        have hne : ¬ x.1 = r := by
+          intro e
+          subst e
+          simp [nz, ← hx, hz] at hr
+        simp only [hcol, g1, List.count_cons, List.map_cons, beq_iff_eq, hne] at this ⊢
+        simpa using this
+    · have hcol : collect c s.got x = s.got ++ [x] := by simp [collect, hz]
+      refine ⟨d1, d2, ?_, ?_, ?_⟩
+      · intro y hy
+        apply d3 y
+        simp only [hcol, g1, List.mem_append, List.mem_cons, List.mem_nil_iff, or_false] at hy ⊢
+        tauto
+      · intro y hy
+        simp only [hcol, List.mem_append, List.mem_cons, List.mem_nil_iff, or_false] at hy
+        rcases hy with hy | rfl
+        · exact d4 y hy
+        · simpa using hz
+      · intro r hr
+        have := d5 r hr
+        simp only [hcol, g1, List.count_append, List.count_cons, List.count_nil, List.map_append,
+          List.map_cons, List.map_nil] at this ⊢
+        omega
+  | collClosed _ g0 g1 g2 => exact ⟨d1, d2, d3, d4, d5⟩
+  | collCancel _ g0 _ gc => simp [hc] at gc
+
+/-- At the moment the collector sees `entries` closed and drained (nothing cancelled), its slice
+    is a permutation of the sequential product. -/
+theorem got_perm_seq {c : Cfg β} (hcw : c.shape.closerWaitsAllWorkers = true) (hw : 1 ≤ c.w)
+    {s : St β} (hS : SInv c s) (hD : DInv c s) (hq : s.entriesQ = [])
+    (hcl : s.entriesClosed = true) : s.got.Perm c.seq := by
+  have hex : s.exited = c.w := hS.closer_waits hcw hcl
+  have hj := hD.exited_closed (by omega)
+  have hnext : s.next = c.dim := hD.prod_done (hS.closed_done hj.1)
+  have hheld : s.held = [] := by
+    have := hS.workers
+    apply List.eq_nil_of_length_eq_zero
+    omega
+  have hkeys : (s.got.map Prod.fst).Perm ((List.range c.dim).filter (nz c)) := by
+    rw [List.perm_iff_count]
+    intro r
+    by_cases hr : nz c r = true
+    · have := hD.account r hr
+      simp only [hj.2, hheld, hq, hnext, List.count_nil, List.map_nil] at this
+      rw [List.count_filter hr, List.count_range]
+      omega
+    · have h1 : r ∉ s.got.map Prod.fst := by
+        intro hm
+        obtain ⟨x, hx, rfl⟩ := List.mem_map.mp hm
+        have t := hD.tagged x (by simp [hx])
+        have z := hD.got_nz x hx
+        apply hr
+        simp [nz, ← t, z]
+      have h2 : r ∉ (List.range c.dim).filter (nz c) := by
+        intro hm
+        exact hr (List.mem_filter.mp hm).2
+      rw [List.count_eq_zero_of_not_mem h1, List.count_eq_zero_of_not_mem h2]
+  have hgot : s.got = (s.got.map Prod.fst).map (tag c.prod) := by
+    rw [List.map_map]
+    conv_lhs => rw [← List.map_id s.got]
+    apply List.map_congr_left
+    intro x hx
+    have t := hD.tagged x (by simp [hx])
+    simp only [id, Function.comp, tag]
+    rw [← t]
+  rw [hgot, Cfg.seq, seqList_eq_map_filter]
+  exact hkeys.map _
+
+theorem pub_eq_seq {c : Cfg β} (hsa : c.shape.sortsAfterCollect = true) (hsort : IsSortFn c.sortFn)
+    {got : List (Nat × β)} (h : got.Perm c.seq) : pub c got = c.seq := by
+  simp only [pub, hsa, if_true]
+  exact sortFn_eq_seqList hsort c.dim c.prod c.isZ got h
+
+/-! ## Result invariant (under any cancellation) -/
+
+/-- What the collector may have returned, and what the caller's receiver looks like. -/
+structure RInv (c : Cfg β) (s : St β) : Prop where
+  /-- `ctx.Err()` is only returned when `ctx` was cancelled -/
+  err_cancelled : s.result = some (.error ()) → s.cancelled = true
+  /-- success means the sequential product — unless the collector does not re-check `ctx`
+      and `ctx` was cancelled -/
+  ok_seq : ∀ l, s.result = some (.ok l) →
+    l = c.seq ∨ (c.shape.collectorRechecksCtx = false ∧ s.cancelled = true)
+  /-- the receiver is untouched while running and after an error return -/
+  out_none : c.shape.publishesAfterSort = true →
+    (s.result = none ∨ s.result = some (.error ())) → s.out = none
+  /-- on success the receiver holds exactly what was published -/
+  out_ok : ∀ l, s.result = some (.ok l) → s.out = some l
+
+/-- the structural facts the determinism argument uses -/
+structure DetHyp (c : Cfg β) : Prop where
+  row : c.shape.rowByOneVecDot = true
+  sorts : c.shape.sortsAfterCollect = true
+  dropsZero : c.shape.dropsZero = true
+  closerWaits : c.shape.closerWaitsAllWorkers = true
+  workers : 1 ≤ c.w
+  sortFn : IsSortFn c.sortFn
+
+theorem rinv_init (c : Cfg β) : RInv c (init c) := by
+  constructor <;> simp [init]
+
+theorem rinv_step {c : Cfg β} (H : DetHyp c) {a : Actor} {s s' : St β} (hS : SInv c s)
+    (hD : s.cancelled = false → DInv c s) (hR : RInv c s) (hs : Step c a s s') : RInv c s' := by
+  obtain ⟨r1, r2, r3, r4⟩ := hR
+  cases hs with
+  | cancel =>
+    refine ⟨fun _ => rfl, ?_, r3, r4⟩
+    intro l hl
+    rcases r2 l hl with h | h
+    · exact Or.inl h
+    · exact Or.inr ⟨h.1, rfl⟩
+  | prodSend _ g1 g2 g3 => exact ⟨r1, r2, r3, r4⟩
+  | prodExit _ g1 g2 => exact ⟨r1, r2, r3, r4⟩
+  | prodCancel _ g1 g2 _ gc => exact ⟨r1, r2, r3, r4⟩
+  | workRecv _ r0 rest p g1 g2 gp => exact ⟨r1, r2, r3, r4⟩
+  | workExitClosed _ g1 g2 g3 => exact ⟨r1, r2, r3, r4⟩
+  | workCancelRecv _ g1 _ gc => exact ⟨r1, r2, r3, r4⟩
+  | workSend _ pre x post g1 g2 g3 => exact ⟨r1, r2, r3, r4⟩
+  | workCancelSend _ pre x post g1 _ gc => exact ⟨r1, r2, r3, r4⟩
+  | closer _ g1 g2 => exact ⟨r1, r2, r3, r4⟩
+  | collRecv _ x rest g0 g1 =>
+    refine ⟨r1, r2, ?_, ?_⟩
+    · intro hp hr
+      simp only [hp, if_true]
+      exact r3 hp hr
+    · intro l hl
+      simp [g0] at hl
+  | collClosed _ g0 g1 g2 =>
+    by_cases hk : (c.shape.collectorRechecksCtx && s.cancelled) = true
+    · -- `ctx.Err()` returned
+      have hcan : s.cancelled = true := by
+        simp only [Bool.and_eq_true] at hk; exact hk.2
+      refine ⟨fun _ => hcan, ?_, ?_, ?_⟩
+      · intro l hl; simp [hk] at hl
+      · intro hp _
+        simp only [hk, if_true]
+        exact r3 hp (Or.inl g0)
+      · intro l hl; simp [hk] at hl
+    · refine ⟨?_, ?_, ?_, ?_⟩
+      · intro h; simp [hk] at h
+      · intro l hl
+        simp only [hk] at hl
+        have hl' : l = pub c s.got := by
+          simp at hl; exact hl.symm
+        cases hcan : s.cancelled
+        · left
+          rw [hl']
+          exact pub_eq_seq H.sorts H.sortFn
+            (got_perm_seq H.closerWaits H.workers hS (hD hcan) g1 g2)
+        · right
+          refine ⟨?_, rfl⟩
+          simp only [hcan, Bool.and_true] at hk
+          simpa using hk
+      · intro _ hr
+        simp [hk] at hr
+      · intro l hl
+        simp only [hk] at hl ⊢
+        simp at hl
+        simp [hl]
+  | collCancel _ g0 _ gc =>
+    refine ⟨fun _ => gc, ?_, ?_, ?_⟩
+    · intro l hl; simp at hl
+    · intro hp _; exact r3 hp (Or.inl g0)
+    · intro l hl; simp at hl
+
+/-- all invariants together -/
+structure Good (c : Cfg β) (s : St β) : Prop where
+  sinv : SInv c s
+  dinv : s.cancelled = false → DInv c s
+  rinv : RInv c s
+
+theorem good_of_reach {c : Cfg β} (H : DetHyp c) {s : St β} (h : Reach c s) : Good c s := by
+  refine Reach.invariant (Good c) ⟨sinv_init c, fun _ => dinv_init c, rinv_init c⟩ ?_ s h
+  intro a s s' _ hg hs
+  exact ⟨sinv_step hg.sinv hs, dinv_step H.row H.dropsZero hg.sinv hg.dinv hs,
+    rinv_step H hg.sinv hg.dinv hg.rinv hs⟩
+
+/-- With a closer that waits for all workers, no worker is ever blocked at (or attempts) a send
+    on a closed `entries` channel: the Go panic "send on closed channel" is unreachable. -/
+theorem no_send_on_closed {c : Cfg β} (hcw : c.shape.closerWaitsAllWorkers = true) {s : St β}
+    (hS : SInv c s) (hcl : s.entriesClosed = true) : s.held = [] ∧ s.idle = 0 := by
+  have := hS.closer_waits hcw hcl
+  have := hS.workers
+  exact ⟨List.eq_nil_of_length_eq_zero (by omega), by omega⟩
+
+/-! ## Termination measures -/
+
+/-- work left for producer, workers and closer -/
+def workNC (c : Cfg β) (s : St β) : Nat :=
+  4 * (c.dim - s.next) + (if s.prodDone then 0 else 1) + 3 * s.jobs.length + 3 * s.held.length +
+    s.idle + s.entriesQ.length + (if s.entriesClosed then 0 else 1)
+
+/-- work left for everybody -/
+def work (c : Cfg β) (s : St β) : Nat :=
+  workNC c s + (if s.result.isSome then 0 else 1)
+
+theorem workNC_step {c : Cfg β} {a : Actor} {s s' : St β} (hs : Step c a s s') :
+    (a ≠ .env → a ≠ .collector → workNC c s' < workNC c s) ∧
+      workNC c s' ≤ workNC c s := by
+  cases hs with
+  | cancel => simp [workNC]
+  | prodSend _ g1 g2 g3 => simp [workNC]; omega
+  | prodExit _ g1 g2 => simp [workNC, g1]
+  | prodCancel _ g1 g2 _ gc => simp [workNC, g1]
+  | workRecv _ r0 rest p g1 g2 gp => simp [workNC, g2]; omega
+  | workExitClosed _ g1 g2 g3 => simp [workNC]; omega
+  | workCancelRecv _ g1 _ gc => simp [workNC]; omega
+  | workSend _ pre x post g1 g2 g3 => simp [workNC, g1]; omega
+  | workCancelSend _ pre x post g1 _ gc => simp [workNC, g1]; omega
+  | closer _ g1 g2 => simp [workNC, g1]
+  | collRecv _ x rest g0 g1 => simp [workNC, g1]
+  | collClosed _ g0 g1 g2 => simp [workNC]
+  | collCancel _ g0 _ gc => simp [workNC]
+
+theorem work_step {c : Cfg β} {a : Actor} {s s' : St β} (hs : Step c a s s') (ha : a ≠ .env) :
+    work c s' < work c s := by
+  cases hs with
+  | cancel => exact absurd rfl ha
+  | prodSend _ g1 g2 g3 => simp [work, workNC]; omega
+  | prodExit _ g1 g2 => simp [work, workNC, g1]
+  | prodCancel _ g1 g2 _ gc => simp [work, workNC, g1]
+  | workRecv _ r0 rest p g1 g2 gp => simp [work, workNC, g2]; omega
+  | workExitClosed _ g1 g2 g3 => simp [work, workNC]; omega
+  | workCancelRecv _ g1 _ gc => simp [work, workNC]; omega
+  | workSend _ pre x post g1 g2 g3 => simp [work, workNC, g1]; omega
+  | workCancelSend _ pre x post g1 _ gc => simp [work, workNC, g1]
+  | closer _ g1 g2 => simp [work, workNC, g1]
+  | collRecv _ x rest g0 g1 => simp [work, workNC, g1]
+  | collClosed _ g0 g1 g2 => simp [work, workNC, g0]
+  | collCancel _ g0 _ gc => simp [work, workNC, g0]
+
+/-! ## Progress -/
+
+/-- producer, all `w` workers and the closer have returned -/
+def AllDone (c : Cfg β) (s : St β) : Prop :=
+  s.prodDone = true ∧ s.exited = c.w ∧ s.entriesClosed = true
+
+/-- a step of producer, a worker or the closer -/
+def NCStep (c : Cfg β) (s s' : St β) : Prop :=
+  ∃ a, a ≠ Actor.env ∧ a ≠ Actor.collector ∧ Step c a s s'
+
+/-- Producer, workers and closer are never all blocked before they have all returned — whether or
+    not the collector still receives.  `hsend` says no worker waits at a closed `entries`. -/
+theorem progress_core {c : Cfg β} (hclose : c.shape.producerClosesJobs = true)
+    (hjc : c.shape.jobsCap = .dim) (hec : c.shape.entriesCap = .dim) {s : St β} (hS : SInv c s)
+    (hsend : s.entriesClosed = true → s.held = []) (hnd : ¬ AllDone c s) :
+    ∃ s', NCStep c s s' := by
+  have hflow := hS.flow
+  have hnext := hS.next_le
+  have hwork := hS.workers
+  cases hpd : s.prodDone
+  · -- the producer can move
+    by_cases hlt : s.next < c.dim
+    · exact ⟨_, .producer, by decide, by decide,
+        Step.prodSend s hpd hlt (by simp [hjc, ChanCap.canSend]; omega)⟩
+    · exact ⟨_, .producer, by decide, by decide, Step.prodExit s hpd (by omega)⟩
+  · have hjcl : s.jobsClosed = true := by rw [hS.done_closed hpd, hclose]
+    by_cases hidle : 0 < s.idle
+    · cases hj : s.jobs with
+      | nil => exact ⟨_, .worker, by decide, by decide, Step.workExitClosed s hidle hj hjcl⟩
+      | cons r rest =>
+        exact ⟨_, .worker, by decide, by decide,
+          Step.workRecv s r rest (c.prod r) hidle hj (fun _ => rfl)⟩
+    · cases hh : s.held with
+      | cons x post =>
+        have hcl : s.entriesClosed = false := by
+          cases h : s.entriesClosed
+          · rfl
+          · have := hsend h; simp [hh] at this
+        have hlen : s.entriesQ.length < c.dim := by
+          simp [hh] at hflow; omega
+        exact ⟨_, .worker, by decide, by decide,
+          Step.workSend s [] x post (by simpa using hh) hcl
+            (by simp [hec, ChanCap.canSend]; exact hlen)⟩
+      | nil =>
+        have hex : s.exited = c.w := by simp [hh] at hwork; omega
+        have hcl : s.entriesClosed = false := by
+          cases h : s.entriesClosed
+          · rfl
+          · exact absurd ⟨hpd, hex, h⟩ hnd
+        exact ⟨_, .closer, by decide, by decide, Step.closer s hcl (fun _ => hex)⟩
+
+/-- the facts the progress argument uses -/
+structure LiveHyp (c : Cfg β) : Prop where
+  closes : c.shape.producerClosesJobs = true
+  jobsCap : c.shape.jobsCap = .dim
+  entriesCap : c.shape.entriesCap = .dim
+
+/-- No deadlock: while the collector has not returned, somebody other than the environment can move. -/
+theorem no_deadlock {c : Cfg β} (L : LiveHyp c) {s : St β} (hr : Reach c s)
+    (hres : s.result = none) : ∃ a s', a ≠ Actor.env ∧ Step c a s s' := by
+  have hS := sinv_of_reach hr
+  cases hq : s.entriesQ with
+  | cons x rest => exact ⟨.collector, _, by decide, Step.collRecv s x rest hres hq⟩
+  | nil =>
+    cases hcl : s.entriesClosed
+    · obtain ⟨s', a, ha, _, hs⟩ := progress_core L.closes L.jobsCap L.entriesCap hS
+        (by simp [hcl]) (by simp [AllDone, hcl])
+      exact ⟨a, s', ha, hs⟩
+    · exact ⟨.collector, _, by decide, Step.collClosed s hres hq hcl⟩
+
+/-- No leak: until producer, workers and closer have all returned, one of them can move — even
+    after the collector has returned (sends never block: capacity `dim` ≥ number of sends). -/
+theorem no_leak_progress {c : Cfg β} (L : LiveHyp c)
+    (hcw : c.shape.closerWaitsAllWorkers = true) {s : St β} (hr : Reach c s)
+    (hnd : ¬ AllDone c s) : ∃ s', NCStep c s s' :=
+  progress_core L.closes L.jobsCap L.entriesCap (sinv_of_reach hr)
+    (fun h => (no_send_on_closed hcw (sinv_of_reach hr) h).1) hnd
+
+/-- From every reachable state, producer, workers and closer can run to completion on their own. -/
+theorem no_leak_eventually {c : Cfg β} (L : LiveHyp c)
+    (hcw : c.shape.closerWaitsAllWorkers = true) :
+    ∀ (n : Nat) (s : St β), Reach c s → workNC c s = n →
+      ∃ s', Relation.ReflTransGen (NCStep c) s s' ∧ AllDone c s' := by
+  intro n
+  induction n using Nat.strongRecOn with
+  | ind n ih =>
+    intro s hr hn
+    by_cases hd : AllDone c s
+    · exact ⟨s, Relation.ReflTransGen.refl, hd⟩
+    · obtain ⟨s1, a, ha1, ha2, hs⟩ := no_leak_progress L hcw hr hd
+      have hlt := (workNC_step hs).1 ha1 ha2
+      obtain ⟨s2, h12, hd2⟩ := ih (workNC c s1) (by omega) s1 (hr.step hs) rfl
+      exact ⟨s2, Relation.ReflTransGen.head ⟨a, ha1, ha2, hs⟩ h12, hd2⟩
+
+/-- both channels stay within their capacity `dim` -/
+theorem chan_bounds {c : Cfg β} {s : St β} (hr : Reach c s) :
+    s.jobs.length ≤ c.dim ∧ s.entriesQ.length ≤ c.dim := by
+  have hS := sinv_of_reach hr
+  have := hS.flow
+  have := hS.next_le
+  omega
+
+/-! ## The cancellation trace that a missing `ctx` re-check lets through -/
+
+/-- after cancel, producer exit on cancel and `k` workers exiting on cancel -/
+def cancelledSt (c : Cfg β) (k : Nat) (closed : Bool) : St β :=
+  { next := 0, prodDone := true, jobsClosed := c.shape.producerClosesJobs, jobs := [],
+    idle := c.w - k, held := [], exited := k, entriesQ := [], entriesClosed := closed, got := [],
+    cancelled := true, result := none, out := none }
+
+theorem reach_cancelledSt {c : Cfg β} (hp : c.shape.producerSelectsCtx = true)
+    (hw : c.shape.workerRecvSelectsCtx = true) (hd : 0 < c.dim) :
+    ∀ k, k ≤ c.w → Reach c (cancelledSt c k false) := by
+  intro k
+  induction k with
+  | zero =>
+    intro _
+    exact ((Reach.start c).step (Step.cancel _)).step (Step.prodCancel _ rfl hd hp rfl)
+  | succ k ih =>
+    intro hk
+    have h := (ih (by omega)).step
+      (Step.workCancelRecv (cancelledSt c k false) (by simp [cancelledSt]; omega) hw rfl)
+    have e : cancelledSt c (k + 1) false =
+        { cancelledSt c k false with idle := (cancelledSt c k false).idle - 1,
+                                     exited := (cancelledSt c k false).exited + 1 } := by
+      simp [cancelledSt]; omega
+    rw [e]; exact h
+
+/-- Without the re-check of `ctx.Err()` after the loop, cancellation before any row was
+    processed makes `MulVec` report success with an EMPTY vector: cancel → producer exits on
+    cancel → every worker exits on cancel → closer closes `entries` → collector takes the
+    closed branch. -/
+theorem unsafe_trace (c : Cfg β) (hp : c.shape.producerSelectsCtx = true)
+    (hw : c.shape.workerRecvSelectsCtx = true) (hre : c.shape.collectorRechecksCtx = false)
+    (hd : 0 < c.dim) (hnil : c.sortFn [] = []) :
+    ∃ s, Reach c s ∧ s.cancelled = true ∧ s.result = some (.ok []) ∧ s.out = some [] := by
+  have h1 := (reach_cancelledSt hp hw hd c.w (Nat.le_refl _)).step
+    (Step.closer _ rfl (fun _ => rfl))
+  have h2 := h1.step (Step.collClosed _ rfl rfl rfl)
+  refine ⟨_, h2, rfl, ?_, ?_⟩ <;> simp [cancelledSt, hre, pub, hnil]
+
+/-! ## Example shapes and a concrete out-of-order run -/
+
+/-- every structural fact present (the repaired source) -/
+def safeShape : MulVecShape :=
+  { producerSelectsCtx := true, producerClosesJobs := true, workerRecvSelectsCtx := true,
+    workerSendSelectsCtx := true, rowByOneVecDot := true, closerWaitsAllWorkers := true,
+    collectorSelectsCtx := true, collectorRechecksCtx := true, dropsZero := true,
+    sortsAfterCollect := true, publishesAfterSort := true, jobsCap := .dim, entriesCap := .dim,
+    numWorkers := 32 }
+
+/-- the same without the `ctx.Err()` re-check after the collector loop -/
+def noRecheckShape : MulVecShape := { safeShape with collectorRechecksCtx := false }
+
+example : safeShape.safe = true ∧ safeShape.deterministicCollect = true := by decide
+example : noRecheckShape.safe = false ∧ noRecheckShape.deterministicCollect = true := by decide
+
+/-- 2 rows, 2 workers, products 1 and 2 -/
+def exCfg : Cfg Nat :=
+  { shape := safeShape, dim := 2, w := 2, prod := fun r => r + 1, isZ := fun x => x == 0,
+    sortFn := isortFst }
+
+/-- A complete run in which row 1 overtakes row 0 on `entries`; the collector nevertheless
+    publishes `[(0,1),(1,2)]`, and every goroutine has returned. -/
+theorem exCfg_run : ∃ s, Reach exCfg s ∧ s.cancelled = false ∧
+    s.got = [(1, 2), (0, 1)] ∧ s.result = some (.ok [(0, 1), (1, 2)]) ∧
+    s.out = some [(0, 1), (1, 2)] ∧ AllDone exCfg s := by
+  have h1 := (Reach.start exCfg).step (Step.prodSend _ rfl (by decide) (by decide))
+  have h2 := h1.step (Step.prodSend _ rfl (by decide) (by decide))
+  have h3 := h2.step (Step.prodExit _ rfl rfl)
+  have h4 := h3.step (Step.workRecv _ 0 [1] 1 (by decide) rfl (fun _ => rfl))
+  have h5 := h4.step (Step.workRecv _ 1 [] 2 (by decide) rfl (fun _ => rfl))
+  have h6 := h5.step (Step.workSend _ [] (1, 2) [(0, 1)] rfl rfl (by decide))
+  have h7 := h6.step (Step.workSend _ [] (0, 1) [] rfl rfl (by decide))
+  have h8 := h7.step (Step.workExitClosed _ (by decide) rfl rfl)
+  have h9 := h8.step (Step.workExitClosed _ (by decide) rfl rfl)
+  have h10 := h9.step (Step.closer _ rfl (fun _ => rfl))
+  have h11 := h10.step (Step.collRecv _ (1, 2) [(0, 1)] rfl rfl)
+  have h12 := h11.step (Step.collRecv _ (0, 1) [] rfl rfl)
+  have h13 := h12.step (Step.collClosed _ rfl rfl rfl)
+  exact ⟨_, h13, rfl, rfl, rfl, rfl, rfl, rfl, rfl⟩
+
+/-! ## From the decidable shape predicates to the hypothesis bundles -/
+
+theorem detHyp_of {shape : MulVecShape} (h : shape.deterministicCollect = true) (dim w : Nat)
+    (prod : Nat → β) (isZ : β → Bool) {sortFn : List (Nat × β) → List (Nat × β)}
+    (hs : IsSortFn sortFn) (hw : 1 ≤ w) : DetHyp ⟨shape, dim, w, prod, isZ, sortFn⟩ := by
+  simp only [MulVecShape.deterministicCollect, Bool.and_eq_true] at h
+  obtain ⟨⟨⟨⟨⟨⟨a, b⟩, _⟩, d⟩, _⟩, f⟩, _⟩ := h
+  exact ⟨a, b, d, f, hw, hs⟩
+
+theorem publishes_of_det {shape : MulVecShape} (h : shape.deterministicCollect = true) :
+    shape.publishesAfterSort = true := by
+  simp only [MulVecShape.deterministicCollect, Bool.and_eq_true] at h
+  exact h.1.1.1.1.2
+
+theorem numWorkers_of_det {shape : MulVecShape} (h : shape.deterministicCollect = true) :
+    1 ≤ shape.numWorkers := by
+  simp only [MulVecShape.deterministicCollect, Bool.and_eq_true, decide_eq_true_eq] at h
+  exact h.2
+
+theorem liveHyp_of_safe {shape : MulVecShape} (h : shape.safe = true) (dim w : Nat)
+    (prod : Nat → β) (isZ : β → Bool) (sortFn : List (Nat × β) → List (Nat × β)) :
+    LiveHyp ⟨shape, dim, w, prod, isZ, sortFn⟩ ∧ shape.closerWaitsAllWorkers = true ∧
+      shape.collectorRechecksCtx = true := by
+  simp only [MulVecShape.safe, Bool.and_eq_true, decide_eq_true_eq] at h
+  obtain ⟨⟨⟨⟨⟨⟨⟨⟨⟨⟨_, b⟩, _⟩, _⟩, e⟩, _⟩, g⟩, _⟩, i⟩, j⟩, _⟩ := h
+  exact ⟨⟨b, i, j⟩, e, g⟩
+
 end EtVerif.MulVecConc
+
+/-! # Caller-level atomicity of `Compute` and `Transpose` under cancellation -/
+
+namespace EtVerif.CancelAtomic
+open EtVerif
+
+section Compute
+variable {σ : Type}
+
+/-- what the caller of `basic.Compute` observes -/
+structure CRes (σ : Type) where
+  /-- a non-nil error was returned -/
+  err : Bool
+  /-- the returned vector (`nil` = `none`) -/
+  ret : Option σ
+  /-- the caller's result slot (`WithResultIn`); unchanged = the value it had before the call -/
+  slot : Option σ
+  /-- the caller's initial vector `t0` after the call -/
+  input : σ
+
+/-- `return nil, ctx.Err()` (or `return nil, err` after a failed `MulVec`) -/
+def cErr (sh : ComputeShape) (t0 t1 : σ) (slot : Option σ) : CRes σ :=
+  ⟨true, if sh.returnsNilOnCtx then none else some t1, slot, if sh.clonesInitial then t0 else t1⟩
+
+/-- the code after the loop: assign the result slot, `return t, nil` -/
+def cFin (sh : ComputeShape) (t0 t1 : σ) : CRes σ :=
+  ⟨false, some t1, some t1, if sh.clonesInitial then t0 else t1⟩
+
+/-- The loop of `basic.Compute` (eigentrust.go 258-313).  `cancelled i` is what the poll at the head
+    of iteration `i` sees; `mvFails i` says `MulVec` of iteration `i` returned `ctx.Err()` (by
+    `C07.mulVec_cancel_safe` it then left `t1` untouched; otherwise it stored the full product and
+    the iteration computes `body t1`).  `stop` is the convergence / flat-tail exit test, `fuel` the
+    remaining `maxIters`. -/
+def computeLoop (sh : ComputeShape) (body skip : σ → σ) (stop : Nat → σ → Bool)
+    (cancelled mvFails : Nat → Bool) (t0 : σ) : (fuel iter : Nat) → (t1 : σ) → (slot : Option σ) → CRes σ
+  | 0, _, t1, _ => cFin sh t0 t1
+  | fuel + 1, iter, t1, slot =>
+    if sh.pollsCtxAtLoopHead && cancelled iter then cErr sh t0 t1 slot
+    else if stop iter t1 then cFin sh t0 t1
+    else if mvFails iter then
+      if sh.propagatesMulVecErr then cErr sh t0 t1 slot
+      else
+        computeLoop sh body skip stop cancelled mvFails t0 fuel (iter + 1) (skip t1)
+          (if sh.resultAssignedAfterLoop then slot else some (skip t1))
+    else
+      computeLoop sh body skip stop cancelled mvFails t0 fuel (iter + 1) (body t1)
+        (if sh.resultAssignedAfterLoop then slot else some (body t1))
+
+/-- the undisturbed run: never cancelled -/
+def computeUndisturbed (sh : ComputeShape) (body skip : σ → σ) (stop : Nat → σ → Bool) (t0 : σ)
+    (fuel iter : Nat) (t1 : σ) (slot : Option σ) : CRes σ :=
+  computeLoop sh body skip stop (fun _ => false) (fun _ => false) t0 fuel iter t1 slot
+
+theorem computeLoop_atomic (sh : ComputeShape) (hsafe : sh.safe = true) (body skip : σ → σ)
+    (stop : Nat → σ → Bool) (cancelled mvFails : Nat → Bool) (t0 : σ) :
+    ∀ (fuel iter : Nat) (t1 : σ) (slot : Option σ),
+      computeLoop sh body skip stop cancelled mvFails t0 fuel iter t1 slot =
+          ⟨true, none, slot, t0⟩ ∨
+        computeLoop sh body skip stop cancelled mvFails t0 fuel iter t1 slot =
+          computeUndisturbed sh body skip stop t0 fuel iter t1 slot := by
+  simp only [ComputeShape.safe, Bool.and_eq_true] at hsafe
+  obtain ⟨⟨⟨⟨h1, h2⟩, h3⟩, h4⟩, h5⟩ := hsafe
+  intro fuel
+  induction fuel with
+  | zero => intro iter t1 slot; right; rfl
+  | succ fuel ih =>
+    intro iter t1 slot
+    unfold computeUndisturbed at ih ⊢
+    simp only [computeLoop, h1, h3, h5, Bool.true_and, if_true, Bool.false_eq_true, if_false]
+    cases hc : cancelled iter
+    · cases hst : stop iter t1
+      · cases hmv : mvFails iter
+        · simpa using ih (iter + 1) (body t1) slot
+        · left; simp [cErr, h2, h4]
+      · right; simp
+    · left; simp [cErr, h2, h4]
+
+/-- the undisturbed run succeeds, returns what it stores in the slot, and leaves `t0` alone -/
+theorem computeUndisturbed_ok (sh : ComputeShape) (hsafe : sh.safe = true) (body skip : σ → σ)
+    (stop : Nat → σ → Bool) (t0 : σ) :
+    ∀ (fuel iter : Nat) (t1 : σ) (slot : Option σ),
+      ∃ t, computeUndisturbed sh body skip stop t0 fuel iter t1 slot = ⟨false, some t, some t, t0⟩ := by
+  simp only [ComputeShape.safe, Bool.and_eq_true] at hsafe
+  obtain ⟨⟨⟨⟨h1, h2⟩, h3⟩, h4⟩, h5⟩ := hsafe
+  intro fuel
+  induction fuel with
+  | zero => intro iter t1 slot; exact ⟨t1, by simp [computeUndisturbed, computeLoop, cFin, h4]⟩
+  | succ fuel ih =>
+    intro iter t1 slot
+    unfold computeUndisturbed at ih ⊢
+    simp only [computeLoop, h3, Bool.and_false, Bool.false_eq_true, if_false, if_true]
+    cases hst : stop iter t1
+    · simpa using ih (iter + 1) (body t1) slot
+    · exact ⟨t1, by simp [cFin, h4]⟩
+
+end Compute
+
+section Transpose
+variable {α : Type}
+
+/-- what the caller of `(*CSMatrix).Transpose` observes -/
+structure TRes (α : Type) where
+  err : Bool
+  /-- the returned matrix (`nil` = `none`) -/
+  ret : Option (CSM α)
+  /-- the receiver after the call -/
+  recv : CSM α
+
+/-- the table built so far, as a matrix -/
+def tMat (m : CSM α) (t : List (Row α)) : CSM α := ⟨m.minor, m.major, t, []⟩
+
+/-- the receiver as left behind: untouched if the code builds a fresh table -/
+def tRecv (sh : TransposeShape) (m : CSM α) (t : List (Row α)) : CSM α :=
+  if sh.receiverUntouched then m else { m with rows := t }
+
+/-- The scatter loop of `Transpose` (matrix.go 89-100) with the per-row `ctx` poll;
+    `cancelled i` is what the poll before row `i` sees. -/
+def transposeLoop (sh : TransposeShape) (cancelled : Nat → Bool) (m : CSM α) :
+    List (Row α × Nat) → List (Row α) → TRes α
+  | [], t => ⟨false, some (tMat m t), tRecv sh m t⟩
+  | (r, i) :: rest, t =>
+    if sh.pollsCtxPerRow && cancelled i then
+      ⟨true, if sh.returnsNilOnCtx then none else some (tMat m t), tRecv sh m t⟩
+    else transposeLoop sh cancelled m rest (scatterRow t i r)
+
+/-- `Transpose` under a cancellation oracle -/
+def transposeC (sh : TransposeShape) (cancelled : Nat → Bool) (m : CSM α) : TRes α :=
+  transposeLoop sh cancelled m m.rows.zipIdx (List.replicate m.minor [])
+
+theorem transposeLoop_atomic (sh : TransposeShape) (hsafe : sh.safe = true)
+    (cancelled : Nat → Bool) (m : CSM α) :
+    ∀ (l : List (Row α × Nat)) (t : List (Row α)),
+      transposeLoop sh cancelled m l t = ⟨true, none, m⟩ ∨
+      transposeLoop sh cancelled m l t =
+        ⟨false, some (tMat m (l.foldl (fun t (p : Row α × Nat) => scatterRow t p.2 p.1) t)), m⟩ := by
+  simp only [TransposeShape.safe, Bool.and_eq_true] at hsafe
+  obtain ⟨⟨h1, h2⟩, h3⟩ := hsafe
+  intro l
+  induction l with
+  | nil => intro t; right; simp [transposeLoop, tRecv, h3]
+  | cons p rest ih =>
+    intro t
+    obtain ⟨r, i⟩ := p
+    simp only [transposeLoop, h1, Bool.true_and, List.foldl_cons]
+    cases hc : cancelled i
+    · simpa using ih (scatterRow t i r)
+    · left; simp [tRecv, h2, h3]
+
+end Transpose
+
+end EtVerif.CancelAtomic
